@@ -28,6 +28,8 @@ pub mod c15;
 pub mod c16;
 pub mod c17;
 pub mod c18;
+#[cfg(multiboot2_verif)]
+pub mod c19;
 pub mod c20;
 
 #[cfg(not(kani))]
